@@ -120,7 +120,7 @@ META = {
     "C04": {
         "text": "UNCONDITIONAL exact-set theorem (C04_exact_set): for every quotient size 3..31, auto-expand on/off and every history of add / remove / resize (manual or automatic) / merge on 32-bit hashes in which no call raised, the complete table equals `layout q S` — the canonical table, given by an independent executable specification incl. wrap-around, of the set S of hashes added and not removed since — check is exact membership, get_hashes is S without duplicates, elements_added = |S|. Built from: Layer A (look-up and iteration on layout q S are exact and terminate, all table sizes: C04_contained, C04_hashes), Layer B (add and remove map layout S to layout (S ∪ {h}) / layout (S ∖ {h}), all table sizes — the metadata repair pass provably restores canonical form: C04_B1_add, C04_B2_remove) and the induction over histories (C04_partial). remove never raises or diverges (C04_remove_total); add without auto-resize is refused exactly for a new hash into a table holding size−1 hashes (C04_add_outcome). Tie: the qf suite compares the COMPLETE real state (three metadata arrays, remainders, count, hashes) with the mirrored model AND with layout(set) computed by the specification after EVERY operation (real = mirror = layout), q ∈ {3,4,5,8}, long runs, wrap-around, several automatic resizes, merges (also of a filter into itself); a step budget observes non-termination. Search: random histories against a Python set, the key API with a user-supplied hash function across resizes, and a directed generator for self-merges at the resize threshold (it found the genuine defect D14, repaired in /repo 5210d6f).",
         "design_ref": "§4 C04",
-        "note": TIE + " Termination is proved for every call: look-up, iteration, remove, non-resizing add (C04.lean) and — second module C04_termination.lean — add_alt/resize/merge with the budget the driver gives them never run out (C04_step_terminates, C04_history_terminates: every history ends in the canonical table of its set or in QuotientFilterError, without any 'no call raised' hypothesis; explicit attained bounds |H|+3, 2|H|+3, |H|+2|hs|+2). Hashes < 2^32; the three Bitarrays are modelled as List Bool (C20 is that refinement).",
+        "note": TIE + " Termination is proved for every call: look-up, iteration, remove, non-resizing add (C04.lean) and — second module C04_termination.lean — add_alt/resize/merge with the budget the driver gives them never run out (C04_step_terminates, C04_history_terminates: every history ends in the canonical table of its set or in QuotientFilterError, without any 'no call raised' hypothesis; explicit attained bounds |H|+3, 2|H|+3, |H|+2|hs|+2). Third module C04_selfmerge.lean: a filter merged into itself (Op.merge with the list its own get_hashes returns — the repaired code of D14) answers, lists and counts exactly as before and is again the canonical table of the same set, possibly of a larger size (C04_merge_self, C04_merge_self_state). Hashes < 2^32; the three Bitarrays are modelled as List Bool (C20 is that refinement).",
         "technique": "Lean 4 refinement proof to a canonical-layout specification (read paths, write paths, induction over histories) + correspondence of the complete state against the layout specification",
     },
 }
